@@ -288,8 +288,71 @@ func KnownSeen(id string) bool {
 	return false
 }
 
+// The library under test is handed the very buffer a check later reports as the failing input, and a
+// defective library may have written into it (token values alias the source). Remember keeps a private
+// copy of the last few buffers passed to the parser; Report and Fail record that copy, so a replay
+// file always holds the bytes the case started from.
+type remembered struct {
+	ptr  *byte
+	n    int
+	copy []byte
+}
+
+var (
+	remMu   sync.Mutex
+	remRing [32]remembered
+	remNext int
+)
+
+// Remember notes the pristine content of src (call before handing src to the library).
+func Remember(src []byte) {
+	if len(src) == 0 {
+		return
+	}
+	remMu.Lock()
+	for i := range remRing {
+		if remRing[i].ptr == &src[0] && remRing[i].n == len(src) {
+			remMu.Unlock()
+			return // same buffer parsed again: the first copy is the pristine one
+		}
+	}
+	remRing[remNext] = remembered{&src[0], len(src), append([]byte{}, src...)}
+	remNext = (remNext + 1) % len(remRing)
+	remMu.Unlock()
+}
+
+// Forget drops the remembered copy of src (a check that deliberately edits its buffer between parses).
+func Forget(src []byte) {
+	if len(src) == 0 {
+		return
+	}
+	remMu.Lock()
+	for i := range remRing {
+		if remRing[i].ptr == &src[0] {
+			remRing[i] = remembered{}
+		}
+	}
+	remMu.Unlock()
+}
+
+// Pristine returns the remembered copy of input if there is one, else input.
+func Pristine(input []byte) []byte {
+	if len(input) == 0 {
+		return input
+	}
+	remMu.Lock()
+	defer remMu.Unlock()
+	for i := range remRing {
+		if remRing[i].ptr == &input[0] && remRing[i].n == len(input) {
+			return remRing[i].copy
+		}
+	}
+	return input
+}
+
 // Report records a violation (deduplicated by check+message prefix) and writes its replay file.
 func Report(check, msg string, input []byte, meta map[string]string) {
+	input = Pristine(input)
 	mu.Lock()
 	defer mu.Unlock()
 	initOnce()
@@ -368,7 +431,7 @@ var (
 func Fail(t *rapid.T, check string, input []byte, meta map[string]string, format string, args ...interface{}) {
 	msg := fmt.Sprintf(format, args...)
 	lastFailMu.Lock()
-	lastFail["*"] = &failure{clause: check, msg: msg, input: append([]byte{}, input...), meta: meta}
+	lastFail["*"] = &failure{clause: check, msg: msg, input: append([]byte{}, Pristine(input)...), meta: meta}
 	lastFailMu.Unlock()
 	t.Fatalf("%s", msg)
 }
